@@ -33,9 +33,14 @@ pub fn run_on(mut xs: Xstate, src: &str, drive: Drive) -> RunObs {
         Drive::CompileRun => xs.compile(src).and_then(|_| xs.run()),
         Drive::CompileStep => {
             xs.compile(src)?;
+            // every step is metered: more steps than the instruction limit allows is itself an outcome (and no reason to hang)
+            let cap = xs.verif_dump().insn_limit.map(|l| l + 16);
             while xs.is_running() {
                 xs.next()?;
                 steps += 1;
+                if cap.map(|c| steps > c).unwrap_or(false) {
+                    return Err(Xerr::ErrorMsg(Xstr::from("harness: single-stepping ran past the instruction limit")));
+                }
             }
             Ok(())
         }
